@@ -152,6 +152,21 @@ pub fn run_behaviour(dir: &str, setup: &Value, beh: &[Value], bid: usize) -> Vec
 			r["obs"] = w.obs();
 			out.push(r.to_string());
 		}
+		if e["ev"] == "scan" || (e["ev"] == "refresh" && setup["fault_refresh"].as_bool().unwrap_or(false)) {
+			// a node that fails exactly one call during a scan / refresh: the same operation is
+			// first run with its k-th node call failing, for k = 1..fault_scans, then healthy
+			let k_max = setup["fault_scans"].as_u64().unwrap_or(0);
+			for k in 1..=k_max {
+				w.node.arm_failure(k);
+				let mut r = step(&mut w, e);
+				w.node.arm_failure(0);
+				r["ev"] = json!(format!("faulty_{}", e["ev"].as_str().unwrap_or("")));
+				r["failcall"] = json!(k);
+				r["b"] = json!(bid);
+				r["obs"] = w.obs();
+				out.push(r.to_string());
+			}
+		}
 		let mut r = step(&mut w, e);
 		r["b"] = json!(bid);
 		r["obs"] = w.obs();
